@@ -53,12 +53,13 @@ Section sim.
       as (s1 & R1 & Pc1 & A1 & P1 & D1 & (T1 & H1 & Cn1 & L1) & V1 & _ & F1); auto.
     - cbn. lia.
     - intros ck [X _]; exact X.
-    - intros ch b fs Hn Hk. rewrite nth_off_0 in Hn. split.
+    - intros ch b fs Hn Hk. rewrite nth_off_0 in Hn. split; [|split].
       + split; [exact Hk|]. unfold lastd. cbn. unfold h_dep. cbn [fst snd]. rewrite Hn.
         assert (Z0 : key_eqb (mk_key fs) [] = false).
         { destruct (key_eqb (mk_key fs) []) eqn:E0; auto. apply key_eqb_spec in E0. contradiction. }
         assert (X : key_eqb (mk_key fs) (mk_key fs) = true) by now apply key_eqb_spec. rewrite Z0, X. discriminate.
       + apply Hin. cbn. apply (hold_factors_nth vs 0%nat ch b fs Hn).
+      + rewrite (hold_ok_nth _ _ _ _ _ Hhok Hn). congruence.
     - congruence.
     - (* the Wait *)
       assert (St : vm_step cmds s1 = Running (mkV (v_cur s1) (v_time s1 + dur)%Q (v_regs s1) ((v_time s1, v_cur s1) :: v_hist s1)
@@ -116,9 +117,9 @@ Section sim.
       { intros ch k b olds [Knz KB] Hdp. destruct (lx (ch, k)) as [e|] eqn:Ex.
         - apply D1; auto. split; auto. fold (lx (ch, k)). rewrite Ex. discriminate.
         - rewrite SD1 in Hdp. fold (lx (ch, k)) in Hdp. rewrite Ex in Hdp. cbn in Hdp.
-          destruct (HD ch k b olds) as (r & Rr & Rv); auto.
+          destruct (HD ch k b olds) as (r & Rr & R0 & Rv); auto.
           { split; auto. rewrite Hl, Ex. fold (lB (ch, k)) in KB. destruct (lB (ch, k)); cbn; [discriminate|contradiction]. }
-          exists r. rewrite F1 by auto. split; auto. rewrite SI1. exact Rv. }
+          exists r. rewrite F1 by auto. split; auto. split; [exact R0|]. rewrite SI1. exact Rv. }
       destruct (IH d HokB HinB st1 c2 st2 I cmds (pre ++ c1) post s1 E2 HSt Q1 HI Q2 Hc2 Q3 Q4 Cu1 A1 P1 Q5) as
         (s2 & R2 & Pc2 & Cu2 & A2 & P2 & D2 & F2 & (h2 & Hh2 & Hr2) & T2 & Cn2).
       exists s2. split; [eapply reach_trans; eauto|]. split; [rewrite Pc2, !app_length; lia|]. split; auto.
@@ -126,8 +127,8 @@ Section sim.
       + intros ch k b olds [Knz KxB] Hdp. rewrite Hl in KxB. destruct (lB (ch, k)) as [e|] eqn:EB.
         * apply D2; auto. split; auto. fold (lB (ch, k)). rewrite EB. discriminate.
         * cbn in KxB. rewrite SD2 in Hdp. fold (lB (ch, k)) in Hdp. rewrite EB in Hdp. cbn in Hdp.
-          destruct (D1 ch k b olds) as (r & Rr & Rv); auto. { split; auto. }
-          exists r. rewrite F2 by auto. split; auto. rewrite SI2. exact Rv.
+          destruct (D1 ch k b olds) as (r & Rr & R0 & Rv); auto. { split; auto. }
+          exists r. rewrite F2 by auto. split; auto. split; [exact R0|]. rewrite SI2. exact Rv.
       + intros ck Hnz Hn. rewrite Hl in Hn. apply orlast_none in Hn as [N1 N2]. rewrite F2, F1; auto.
       + exists (h2 ++ h1). split; [rewrite Hh2, Hh1, app_assoc; reflexivity|].
         rewrite rev_app_distr, nplay_list_cons. rewrite T1 in Hr2.
